@@ -67,6 +67,8 @@ void generate(sim::Rng &r, uint64_t seed, const std::string &tier, sim::Plan &p)
     for (int i = 0; i < ns; ++i) { sim::Op op; op.kind = "seg"; op.a = {r.chance(450) ? r.range(1, 3) : r.range(4, 200)}; p.ops.push_back(op); }
   } else {
     p.cfg["timeout_s"] = r.range(2, 5);
+    bool long_to = r.chance(150);       // time-outs that are no small round number (the time-out ring has one slot per second)
+    if (long_to) p.cfg["timeout_s"] = r.pick((const long[]){7, 11, 13, 17, 29, 35});
     p.cfg["link_delay_ms"] = r.pick((const long[]){0, 1, 10, 300, 900, 1500});
     p.cfg["jitter_ms"] = r.pick((const long[]){0, 0, 5, 700, 2500});
     p.cfg["loss"] = proto == 2 ? r.pick((const long[]){0, 0, 100, 300}) : 0;
@@ -76,7 +78,7 @@ void generate(sim::Rng &r, uint64_t seed, const std::string &tier, sim::Plan &p)
     for (int i = 0; i < n; ++i) {
       sim::Op op; op.kind = "call";
       long dt = r.chance(400) ? 0 : r.chance(600) ? r.range(1, 400) : r.range(400, 3000);
-      op.a = {dt, (long)r.below(7), (long)(r.next() & 0xffffff), r.chance(850) ? 1 : 0, r.pick((const long[]){1, 10, 500, 1200, 2500, 6000}), r.chance(350) ? 1 : 0};   // last: re-issue the request from inside the callback when it times out
+      op.a = {dt, (long)r.below(7), (long)(r.next() & 0xffffff), r.chance(850) ? 1 : 0, long_to && r.chance(400) ? p.get("timeout_s") * 1000 - r.pick((const long[]){2600, 1400, 600, 200}) : r.pick((const long[]){1, 10, 500, 1200, 2500, 6000}), r.chance(350) ? 1 : 0};   // last: re-issue the request from inside the callback when it times out
       // the link is used in both directions: now and then the peer asks this endpoint for something (answered at once, later, or never)
       if (r.chance(250)) { op.kind = "pcall"; op.a = {dt, (long)r.below(3), r.pick((const long[]){1, 10, 500, 1200, 2500, 6000})}; }
       p.ops.push_back(op);
@@ -457,7 +459,7 @@ void run_requests(const sim::Plan &plan) {
   W.tp = new eventx::TimerPool(W.loop);
   W.pa = make_proto(W.kind); W.pb = make_proto(W.kind);
   W.ra = new Rpc(W.loop); W.rb = new Rpc(W.loop);
-  long timeout_s = std::max(2L, std::min(6L, plan.get("timeout_s", 3)));
+  long timeout_s = std::max(2L, std::min(40L, plan.get("timeout_s", 3)));
   W.ra->initialize(W.pa.get(), (int)timeout_s);
   W.rb->initialize(W.pb.get(), (int)timeout_s);
   W.pa->setSendCallback([](const void *d, size_t n) { link_send(true, d, n); });
